@@ -271,7 +271,8 @@ def canon_lim(t, upto):
 
 DCLAUSE = {1: "return-not-exactly-once/wrong-peer/unjustified-conn", 2: "cancelled-caller-not-released", 3: "address-handed-to-transport-twice",
            4: "caps", 5: "cancel-of-one-caller-ended-shared-dials", 6: "residue-after-all-returned", 7: "caller-count",
-           8: "caller-never-returned", 9: "caller-waits-with-no-dial-in-flight(eligible-address-never-attempted)"}
+           8: "caller-never-returned", 9: "caller-waits-with-no-dial-in-flight(eligible-address-never-attempted)",
+           10: "address-list-handed-to-worker-names-an-address-twice(modulo-/p2p-suffix)"}
 WCLAUSE = {1: "request-answered-twice", 2: "address-handed-to-transport-twice", 3: "response-not-justified",
            4: "request-unanswered-at-quiescence", 5: "eligible-address-not-attempted"}
 CLAUSE = {1: "caps", 2: "residue", 3: "live-job-not-attempted", 4: "dial-invoked-more-than-once"}
@@ -338,7 +339,8 @@ if __name__ == "__main__":
         "REPAIRED DEFECT (known_findings/C05.json, status fixed, /repo commit e092243): clearAllPeerDials, run by the deferred exit of a worker that returns late, used to delete the live jobs a newer active dial for the same peer had queued on the per-peer limit. The model transcribes the repaired code (only jobs whose context is done are dropped); c05_composite_no_lost_job now holds for every schedule; the old code is kept as clear_peer_old for the non-vacuity example; the harness scenario c05DialPeerStaleExit (old worker parked in the connection gater) is a fixed regression case on which monitor clause 9 must hold",
         "HEADLINE (composite monitor): c05_composite_monitor_accepts proves that the DialPeer monitor (clauses 1-7 and 9) accepts every trace of the composite model under the harness-level semantics, for every sequence of stimuli that satisfies SpecDialPeer.wf_stims_b (fresh caller ids, repetition-free rankings with delays in [0, 2 s), non-negative clock advances; the driver evaluates the same boolean on every recorded case and rejects the case otherwise) and limits >= 1. The harness-level semantics is presented as a relation (Proofs_CompositeH.hstep) whose moves carry the oracle answers the semantics gives them; its drain runs as many rounds as a bound computed from the state (SpecComposite.phi) and c05_composite_drain_quiescent proves that it ends in a state in which nothing can move. Clause 8 (the case ends with every caller returned) is a statement about how the harness ends a case, not about the model. The harness-level semantics lets a cancelled caller take its ctx.Done case first (the harness never has a response pending at that point); dial results of kind progress (TCP connection established, upgrade pending) are not produced by the DialPeer harness and are excluded from the composite headline (the worker-level theorems cover them). Concurrency finer than the listed atomic sections is covered by the correspondence only",
         "ranker: addresses are the tuple of answers of the predicates the ranker evaluates (recorded from the real predicates); sort.Slice is a Section hypothesis (permutes its input), instantiated with stable insertion sort (what sort.Slice runs for <= 12 elements; cases have <= 10 addresses)",
-        "DNS resolution, black-hole detector and back-off expiry are inputs (BackoffBase is set to 24h in the worker harness so entries do not expire in a case)",
+        "addrsForDial: modelled as the pure function ModelAddrs.addrs_for_dial (resolve, strip /p2p, keep each address once, filter by an arbitrary predicate of the list); c05_addrs_for_dial_no_duplicates / _sound_complete hold for every peerstore content and every resolution. ma.Unique (sort + drop equal neighbours) is modelled as a set operation. On the implementation the output is judged by clause 10 of the DialPeer case monitor (the ranking recorded for every request names an address once, addresses numbered modulo a trailing /p2p/<peer>) with a scripted DNS resolver; the function itself is not replayed",
+        "black-hole detector and back-off expiry are inputs (BackoffBase is set to 24h in the worker harness so entries do not expire in a case)",
     ]
     standard_flow(ctx, dict(
         consts=consts,
@@ -365,7 +367,11 @@ if __name__ == "__main__":
              "context state and the returns of every step compared with the model (either cancel/close observation order accepted). Non-trivial = a caller "
              "was cancelled. DialPeer: seeded random cases of whole Swarm.DialPeer (real dialSync + worker + limiter with caps 1-3 / 1-4, scripted transports "
              "that hang until ended or cancelled): 1-7 addresses of mixed classes, back-off left before, up to 6 concurrent callers with independent "
-             "cancellation and flags, virtual time, plus the fixed regression scenario of the repaired defect (a closed worker parked in the connection gater returns after a new active dial has "
+             "cancellation and flags, virtual time; half of the addresses are known to the peerstore literally, the others in a random set of forms that all "
+             "mean the same transport address (literal, literal with a trailing /p2p/<peer>, a /dns4 name, and records of a /dnsaddr name giving the address, the "
+             "address with /p2p/<peer>, or its /dns4 form; scripted resolver), with several DialPeer calls per case after the first one wrote the resolved addresses "
+             "back to the peerstore; addresses are numbered after stripping /p2p, so that the monitor clauses 3 and 10 compare them as the code's de-duplication intends; "
+             "plus the fixed scenarios: a /dnsaddr peer dialed again while its resolved address is cached, a caller cancelled while blocked sending its request, and the regression scenario of the repaired defect (a closed worker parked in the connection gater returns after a new active dial has "
              "queued jobs); every observation replayed by the composite model (SpecComposite) and judged by the monitor. Non-trivial = two callers inside at once and a transport dial started. "
              "ranker: DefaultDialRanker on 0-10 real multiaddrs of 19 kinds, output compared element by element. Non-trivial = >= 3 addresses "
              "with both IP versions. distinct = distinct case lines.",
